@@ -441,16 +441,21 @@ def rule_dispatch(ctx):
     F = facts_of(ctx)
     mod = ctx.model.module("countmin")
     ld = ctx.model.func("countmin", "load")
-    # module-level table: dtype -> class
+    # module-level table: dtype -> class, read from the paths of load(): a call `<Class>.load(...)` reached on a path that decided
+    # `saved dtype == np.uintN` (and no other dtype) positively
     table = {}
-    for n in walk_no_nested(ld.node):
-        if isinstance(n, ast.If) and isinstance(n.test, ast.Compare) and len(n.test.ops) == 1 and isinstance(n.test.ops[0], ast.Eq):
-            dt = NP_DTYPES.get((dotted(n.test.comparators[0]) or "").split(".")[-1])
-            rets = [s for s in n.body if isinstance(s, ast.Return)]
-            if dt is not None and rets and isinstance(rets[0].value, ast.Call):
-                d = dotted(rets[0].value.func) or ""
-                if d.endswith(".load"):
-                    table[dt.bits] = (d.split(".")[0], rets[0].value, n)
+    wld = F.walk(ld)
+    for e in wld.events:
+        if e.kind == "call" and isinstance(e.node, ast.Call) and isinstance(e.node.func, ast.Attribute) and e.node.func.attr == "load" \
+                and isinstance(e.node.func.value, ast.Name):
+            dec = _dtype_decisions(e)
+            pos = [b_ for b_, pol in dec.items() if pol]
+            cname = e.node.func.value.id
+            v = (getattr(e, "envsnap", None) or {}).get(cname)
+            if isinstance(v, Opaque) and isinstance(v.desc, tuple) and len(v.desc) == 2 and v.desc[0] == "global":
+                cname = v.desc[1]
+            if len(pos) == 1:
+                table[pos[0]] = (cname, e.node, e.node)
     for cls in F.classes(COUNTMIN):
         cc = F.class_ceiling(cls)
         bits = cc[0].bits if cc else None
@@ -1113,14 +1118,34 @@ def rule_attach_table(ctx):
         if isinstance(n, ast.Tuple) and len(n.elts) == 3 and isinstance(n.elts[2], ast.Attribute) and n.elts[2].attr == "name" \
                 and isinstance(n.elts[0], ast.Name) and isinstance(n.elts[1], ast.Name):
             tagvar, argvar = n.elts[0].id, n.elts[1].id
-    # class -> tag (isinstance dispatch in parallel_merging)
+    # class -> tag: the tag inside the descriptors that parallel_merging hands to its mergers, on the paths that decided
+    # isinstance(<first sketch>, Class) positively
     c2t = {}
-    for n in walk_no_nested(pm.node):
-        if isinstance(n, ast.If) and isinstance(n.test, ast.Call) and dotted(n.test.func) == "isinstance" and len(n.test.args) == 2:
-            cname = dotted(n.test.args[1])
-            for s in n.body:
-                if isinstance(s, ast.Assign) and isinstance(s.targets[0], ast.Name) and s.targets[0].id == tagvar and isinstance(s.value, ast.Constant):
-                    c2t[cname] = s.value.value
+    wpm = F.walk(pm)
+    for e in wpm.events:
+        if e.kind != "call" or not (isinstance(e.node, ast.Call) and isinstance(e.node.func, ast.Attribute) and e.node.func.attr == "Process"):
+            continue
+        kw = e.kwargs or {}
+        a = kw.get("args")
+        tags = set()
+        if isinstance(a, Tup):
+            for d in a.items:
+                if isinstance(d, Tup) and d.items and isinstance(d.items[0], Opaque) and isinstance(d.items[0].desc, tuple) and d.items[0].desc[0] == "const":
+                    tags.add(d.items[0].desc[1])
+        if len(tags) != 1:
+            continue
+        for (_, _, cc) in e.path:
+            for c in conjuncts(cc):
+                pol = True
+                while c[0] == "not":
+                    c, pol = c[1], not pol
+                if pol and c[0] == "atom" and isinstance(c[1], tuple) and c[1][0] == "truth":
+                    try:
+                        t = ast.parse(c[1][1], mode="eval").body
+                    except SyntaxError:
+                        continue
+                    if isinstance(t, ast.Call) and dotted(t.func) == "isinstance" and len(t.args) == 2:
+                        c2t[dotted(t.args[1])] = next(iter(tags))
     want = {"cms": ("CountMin", "CountMinLinear"), "hh": ("HeavyHitters", "HeavyHitters"), "hll": ("HyperLogLog", "HyperLogLog")}
     for tag, (fac, cname) in want.items():
         okk = t2f.get(tag) == fac
